@@ -9,7 +9,7 @@ struct L10 : Listener {
     void before(Interp &in, const Op &, size_t) override { pre = takeSnap(in.o()); gt.before(in); }
     void after(Interp &in, const Op &op, size_t i, const Outcome &o) override {
         if (o.undocumented) { r.tags.insert("ended-by-undocumented-accepted-deviation"); stop = true; return; }
-        gt.after(op, o);
+        gt.after(op, o); gt.afterLoad(in, op, o);
         if (o.skipped || !o.threw || !o.mutating) return;
         ++refused;
         Snap post = takeSnap(in.o());
@@ -34,7 +34,7 @@ CaseResult runC10(const Case &c, RunCtx &ctx) {
     if (L.refused && !in.halted) {
         // agreement of C05 still holds and the object can still be saved and reloaded
         Snap a = takeSnap(in.o());
-        std::string m = checkAgreement(a, true, &L.gt.gaps);
+        std::string m = checkAgreement(a, L.gt.named, &L.gt.gaps);
         if (!m.empty()) { r.fail("after refused calls the header/parameter/data agreement is broken: " + m); return r; }
         std::string why;
         if (framesComplete(in.o(), &why) && withinCapacity(a, &why)) {
